@@ -3,6 +3,7 @@ CONSTANTS
   Reqs <- TraceReqs
   Parts <- TraceParts
   RegAfter <- TraceRegAfter
+  KeyOf <- TraceKey
   Dups = {}
   LookupAtomic = TRUE
   FailIdx = {}
